@@ -177,6 +177,14 @@ class ConfigSpellings(Case):
         cfgs.append([{"streams": more[0], "window": {"starting": "2020-01-01T00:00:00"}}, {"streams": more[1]}])
         # the shallow case: tests without parameters only
         cfgs.append([{"streams": {"v": {"argo": {"pressure_increasing_test": None}}}}])
+        # every pattern of streams with / without parameters (1-3 streams, any order)
+        withp = {"qartod": {"gross_range_test": {"fail_span": [0, 10]}}}
+        without = {"argo": {"pressure_increasing_test": None}, "qartod": {"location_test": None}}
+        for kk in (2, 3):
+            for pat in itertools.product((True, False), repeat=kk):
+                if not any(pat):
+                    continue
+                cfgs.append([{"streams": OrderedDict(("s%d" % i, (withp if p_ else without)) for i, p_ in enumerate(pat))}])
         for contexts in cfgs:
             for (layout, _obj, _sid) in self.layouts(contexts):
                 for carrier in self.CARRIERS:
@@ -280,3 +288,115 @@ class DictDepth(Case):
 
 def cases():  # noqa: F811
     return [ConfigSpellings(), DictDepth(kind="scalar"), DictDepth(kind="mapping")]
+
+
+# ------------------------------------------------------------------ Config.__init__: layout dispatch (deductive)
+HASP = z3.Function("stream_has_params", z3.IntSort(), z3.BoolSort())  # some test of stream q has parameters
+
+
+class _GhostStream:
+    """a stream entry {module: {test: params}} of nesting depth 2, or 3 when some test has parameters"""
+
+    def __init__(self, q):
+        self.q = q
+
+
+class GhostStreamMapping(OrderedDict):
+    """a bare stream mapping {stream id: {module: {test: params}}} with a symbolic number K >= 1 of streams"""
+
+    def __init__(self, K):
+        OrderedDict.__init__(self)
+        self.K = K
+
+    def __bool__(self):
+        return True
+
+    def __pyvc_contains__(self, key):
+        return False  # neither 'contexts' nor 'streams' is a stream id here
+
+    def values(self):
+        return SymSeq(self.K, lambda q: _GhostStream(q), None, "streams")
+
+
+class LayoutDispatch(Case):
+    """Config.__init__ on a bare stream mapping: it must be handed to ContextConfig as `streams`
+    (so that every configured stream keeps its id), whatever the parameters of the tests are.
+    dict_depth is bound to its contract, ContextConfig to a recorder."""
+
+    module = "ioos_qc.config"
+    function = "Config.__init__"
+    default_props = {}
+    props = {"post.stream_mapping_is_read_as_streams": ("C07",), "no-raise": ("C07",)}
+
+    def declare(self, mk):
+        e = Env(mode=mk.mode)
+        if mk.mode == "sym":
+            e.K = mk.length("K", lo=1)
+            K = e.K
+            mk.decls.append(("custom", "hasp", lambda ev: [bool(ev(HASP(z3.IntVal(i)))) for i in range(ev(K))]))
+        else:
+            e.hasp = [bool(h) for h in mk.values["hasp"]]
+        return e
+
+    def regions(self, e, res=None, k=None):
+        q = z3.Int("q!sh")
+        return {"shallow-stream-mapping": z3.Not(z3.Exists([q], z3.And(q >= 0, q < e.K, HASP(q))))}
+
+    def grid(self, tier, rng):
+        return []
+
+    def canary(self, e, res, k):
+        return None
+
+    no_concrete_model = True
+
+    def call(self, mod, e):
+        if e.mode != "sym":
+            withp = {"qartod": {"gross_range_test": {"fail_span": [0, 10]}}}
+            without = {"argo": {"pressure_increasing_test": None}}
+            src = OrderedDict(("s%d" % i, (withp if h else without)) for i, h in enumerate(e.hasp))
+            return ("concrete", mod.Config(src), list(src))
+        c = cur()
+        src = GhostStreamMapping(e.K)
+        seen = {}
+
+        def depth_stub(x):
+            c.use("contract utils.dict_depth")
+            if isinstance(x, GhostStreamMapping):
+                m = c.fresh("depth", z3.IntSort())
+                w = c.fresh("depthw", z3.IntSort())
+                d = lambda q: z3.If(HASP(q), z3.IntVal(3), z3.IntVal(2))  # noqa: E731
+                c.assume(z3.And(w >= 0, w < x.K, m == 1 + d(w)))
+                qq = z3.Int("q!depth%d" % id(x))
+                c.assume(z3.ForAll([qq], z3.Implies(z3.And(qq >= 0, qq < x.K), m >= 1 + d(qq))))
+                return SNum(m, False, "pyi")
+            if isinstance(x, _GhostStream):
+                return SNum(z3.If(HASP(alg.lift(x.q)), z3.IntVal(3), z3.IntVal(2)), False, "pyi")
+            raise AssertionError("dict_depth of %r" % (type(x),))
+
+        class Recorder:
+            def __init__(self, source):
+                seen["source"] = source
+                self.calls = []
+
+        g = mod.__dict__
+        real_dd, real_cc = g["dict_depth"], g["ContextConfig"]
+        g["dict_depth"], g["ContextConfig"] = depth_stub, Recorder
+        try:
+            mod.Config(src)
+        finally:
+            g["dict_depth"], g["ContextConfig"] = real_dd, real_cc
+        return (seen, src)
+
+    def post_global(self, e, res):
+        if res.value[0] == "concrete":
+            _tag, cfg, ids = res.value
+            return {"stream_mapping_is_read_as_streams": sorted({c_.stream_id for c_ in cfg.calls}) == sorted(ids)}
+        seen, src = res.value
+        s = seen.get("source")
+        ok = s is not None and "streams" in s and s["streams"] is src
+        return {"stream_mapping_is_read_as_streams": bool(ok)}
+
+
+def cases():  # noqa: F811
+    return [ConfigSpellings(), DictDepth(kind="scalar"), DictDepth(kind="mapping"), LayoutDispatch()]
